@@ -142,7 +142,7 @@ PROPS = {
     },
     "C04": {
         "test": "TestC04",
-        "lean_modules": ["Gittuf.Props.C04"],
+        "lean_modules": ["Gittuf.Props.C04", "Gittuf.Props.C04b"],
         "n": {"quick": 120, "thorough": 480},
         "min_per_shard": 10,
         "rule": "one case = one real RSL (<=12 entries, 8%: <=30; thorough also <=60) built through pkg/rsl (Commit / CommitWithoutNumber) or crafted commit by commit, "
